@@ -209,6 +209,10 @@ impl<'a> StagesBuilder<'a> {
         reads.sort();
         reads.dedup();
 
+        // Naming the same dependency twice must behave like naming it once.
+        dep.sort();
+        dep.dedup();
+
         let new_time = system.running_time();
 
         let target = self.insertion_target(&reads, &writes, &mut dep, new_time);
